@@ -83,6 +83,9 @@ class MatrixLight(Light, i_controller.MatrixLight):
         self._width = width
         if self._width is None or self._height is None:
             self._get_size()
+            if self._width is None or self._height is None:
+                raise i_controller.LightException(
+                    'No size information from "{}".'.format(self.get_name()))
 
     @tries(_MAX_TRIES, WorkflowException)
     def _get_size(self) -> None:
